@@ -160,7 +160,7 @@ def _s2c_worker(args):
         pre, preanom = kit.proj(H, g)
         if preanom or pre != st:
             recs.append({"rid": rid, "builderr": "projection of built state differs", "want": st, "got": pre,
-                         "anom": preanom})
+                         "anom": preanom, "fam": fam})
             continue
         res, nwarn, g2 = kit.call(H, op, g, rng)
         if res == "ok":
@@ -202,9 +202,64 @@ def s2c(kit, mc, *, budget, seed_, jobs=common.NCPU):
         for part in ex.map(_s2c_worker, [(kit.name, c, seed_ + i) for i, c in enumerate(chunks) if c]):
             recs += part
     builderr = [r for r in recs if "builderr" in r]
+    recs = [r for r in recs if "builderr" not in r]
+    traced = []
     if builderr:
-        raise MachineryError(f"S->C builder could not realise {len(builderr)} states, e.g. {builderr[0]}")
-    return recs, {"pairs_total": total_pairs, "pairs_replayed": len(recs), "exhaustive": p >= 1.0}
+        # The builder makes only documented calls (add_node, add_edge / add_simplices_from with explicit ids).
+        # When their result is not the state TLC printed, the same calls are repeated one by one as ordinary
+        # trace records: TLC then names the call that deviates.  If every traced call is accepted the
+        # mismatch is the harness's own (counter assignment, projection): a machinery failure.
+        seen = set()
+        for r in builderr:
+            if "want" not in r:
+                continue
+            key = json.dumps(r["want"], sort_keys=True)
+            if key in seen or len(seen) >= 40:
+                continue
+            seen.add(key)
+            traced += traced_build(kit, r["rid"], r["want"], r.get("fam", 0), rng)
+    info = {"pairs_total": total_pairs, "pairs_replayed": len(recs), "exhaustive": p >= 1.0,
+            "unrealised_states": len(builderr), "builderr_example": builderr[0] if builderr else None,
+            "traced_build_rids": [r["rid"] for r in traced]}
+    return recs + traced, info
+
+
+def traced_build(kit, rid, st, fam, rng):
+    """the builder's calls, one record each (abstract ops of the kit's alphabet)"""
+    from .hg import item, mkop
+
+    g = kit.families[fam % len(kit.families)]()
+    empty = {k: ([] if isinstance(v, list) else v) for k, v in st.items()}
+    empty["uid"], empty["frozen"] = 0, False
+    H = kit.build(empty, g)
+    ops = [mkop("add_node", n=n, a=a) for n, a in zip(st["nak"], st["nattr"])]
+    if kit.name == "DH":
+        from . import dhg
+
+        for e, t, h, a in zip(st["edges"], st["tail"], st["head"], st["eattr"]):
+            op = dhg.mkop("add_edge", m=t, id=e, a=a) if hasattr(dhg, "mkop") else mkop("add_edge", m=t, id=e, a=a)
+            op["h"] = list(h)
+            ops.append(op)
+    elif kit.name == "SC":
+        if st["edges"]:
+            ops.append(mkop("add_simplices_from", fmt=4, n2=-1,
+                            items=[item(m=m, id=e, a=a) for e, m, a in zip(st["edges"], st["e2n"], st["eattr"])]))
+    else:
+        ops += [mkop("add_edge", m=m, id=e, a=a) for e, m, a in zip(st["edges"], st["e2n"], st["eattr"])]
+    out = []
+    pre, preanom = kit.proj(H, g)
+    for k, op in enumerate(ops):
+        res, nwarn, g2 = kit.call(H, op, g, rng)
+        if res == "ok":
+            g = g2
+        post, postanom = kit.proj(H, g)
+        rec = {"rid": f"{rid}.build{k}", "gamma": g.name, "pre": pre, "preanom": preanom, "op": op, "res": res,
+               "warn": nwarn, "post": post, "postanom": postanom}
+        if kit.obs:
+            rec.update(kit.obs(H if not postanom else None, g, post if not postanom else {"nodes": [], "e2n": []}, rng))
+        out.append(rec)
+        pre, preanom = post, postanom
+    return out
 
 
 # ---------------------------------------------------------------------------
